@@ -97,7 +97,7 @@ var propPlans = []propPlan{
 		NotDecided: "all the arithmetic: which multiple of the sample duration D is, the 85 % search of findCompatiblePartDuration and its 5 ms step, the upper bound D < 2 x max(PartMinDuration, sample duration) + sample duration, what happens with several sample durations, rounding of PART-TARGET beyond 'up to the millisecond'. Deciding those needs evaluating the code over value ranges (enumeration, symbolic execution): other technique families.",
 		LevelText:  "Thin, structural necessary conditions only: the part switch measures the time elapsed since the open part's own start against a threshold field of the segmenter; that threshold is adjusted before it is compared on the leading track's path; it is at least PartMinDuration by construction (search result that starts at the user's value and only adds non-negative steps); a part starts at the instant the previous one ends, in every stream; PART-TARGET is the maximum over every listed part including the open segment's, rounded up, copied to every rendition. The 85 % / 100 % bounds themselves are value-level and not decided."},
 	{ID: "C20", Title: "Client download pipeline",
-		Rules:      []string{"CG0", "L1", "L4c", "L3c", "K2", "F7", "N3", "L7", "F7b", "F25", "L3d", "L4e", "L3e", "K2b", "L3f", "L3g", "K11", "F7q", "F8c", "F38", "K20", "K2c", "F8d", "F7w"},
+		Rules:      []string{"CG0", "L1", "L4c", "L3c", "K2", "F7", "N3", "L7", "F7b", "F25", "L3d", "L4e", "L3e", "K2b", "L3f", "L3g", "K11", "F7q", "F8c", "F38", "K20", "K2c", "F8d", "F7w", "K3"},
 		NotDecided: "exactly-once as a history property beyond the mutation shapes of the queue.",
 		LevelText:  "Queue state only under its mutex, wake-up channels captured under the lock, signal after change, one throttle between downloads."},
 }
